@@ -193,13 +193,14 @@ class Ctx:
         self.rng.shuffle(items)
         return items
 
-    def pmap(self, modname: str, funcname: str, tasks, nproc: int | None = None, chunksize=1):
-        """run tasks in spawned worker processes, merge their Results into self.res"""
+    def pmap(self, modname: str, funcname: str, tasks, nproc: int | None = None, chunksize=1, fresh=False):
+        """run tasks in spawned worker processes, merge their Results into self.res.
+        fresh=True: every task gets its own new interpreter (nothing the library cached for another task is visible)"""
         tasks = self.shuffled(tasks)
         if not tasks:
             return
         nproc = nproc or min(len(tasks), int(os.environ.get("MZ_NPROC", os.cpu_count() or 4)))
-        if nproc <= 1 or os.environ.get("MZ_SERIAL"):
+        if (nproc <= 1 and not fresh) or os.environ.get("MZ_SERIAL"):
             for t in tasks:
                 d = _worker_call((modname, funcname, t))
                 self._merge(d)
@@ -209,7 +210,7 @@ class Ctx:
         ctx = mp.get_context("spawn")
         env = {k: os.environ[k] for k in ("MZ_REPO", "PYTHONHASHSEED", "MPLBACKEND", "OMP_NUM_THREADS",
                                           "MKL_NUM_THREADS", "VERIF_SEED", "VERIF_TIER") if k in os.environ}
-        with ctx.Pool(nproc, initializer=_worker_init, initargs=(env,)) as pool:
+        with ctx.Pool(max(1, nproc), initializer=_worker_init, initargs=(env,), maxtasksperchild=1 if fresh else None) as pool:
             for d in pool.imap_unordered(_worker_call, [(modname, funcname, t) for t in tasks], chunksize):
                 self._merge(d)
 
@@ -266,7 +267,10 @@ def run_check(prop: str, tier: str, seed: int) -> int:
     rc = 0
     REPLAY_DIR.mkdir(exist_ok=True, parents=True)
     confirmed = 0
-    for f, _ in violations[:MAX_REPORTED]:
+    unconfirmed = 0
+    for f, _ in violations[:MAX_REPORTED + 10]:
+        if confirmed >= MAX_REPORTED:
+            break
         path = REPLAY_DIR / f"{prop}-{digest(f['key'])}.json"
         path.write_text(json.dumps(dict(property=prop, key=f["key"], what=f["what"], replay=f["replay"]),
                                    indent=1))
@@ -278,15 +282,21 @@ def run_check(prop: str, tier: str, seed: int) -> int:
                                    capture_output=True, text=True, env=dict(os.environ))
                 outcomes.append(p.returncode)
             if outcomes != [1, 1]:
+                # not believed and not reported as a violation; the run ends as a harness error unless another violation of this
+                # run does reproduce (a confirmed violation stands on its own replay)
                 print(f"HARNESS-ERROR NONDETERMINISM: violation {f['key']} did not reproduce on replay "
-                      f"(exit codes {outcomes}); {f['what']}", file=sys.stderr)
-                return 3
+                      f"(exit codes {outcomes}); {f['what'][:400]}", file=sys.stderr)
+                unconfirmed += 1
+                path.unlink(missing_ok=True)
+                continue
         confirmed += 1
         print(f"VIOLATION property={prop} replay={path}")
         print(f"  key={f['key']}\n  what={f['what'][:600]}")
         rc = 1
     if len(violations) > MAX_REPORTED:
         print(f"  ... and {len(violations) - MAX_REPORTED} further distinct violation keys")
+    if unconfirmed and not confirmed:
+        return 3
     write_evidence(ctx, wall, len(violations), [kf["key"] for _, kf in knowns])
     cov = ctx.coverage
     print(f"{prop} tier={tier} seed={seed} evaluations={res.evaluations} distinct_nontrivial={len(res.distinct)} "
